@@ -6,13 +6,14 @@ line while the seed is applied; 'initial' is the result of the first matrix run,
 import ast, glob, json, os, re
 V = os.path.dirname(os.path.dirname(os.path.abspath(__file__)))
 rows = {}
-for f in sorted(glob.glob("/root/logs/matrix_b[123].log")):
+for f in sorted(glob.glob("/root/logs/matrix_b[1234].log")):
     for line in open(f):
         line = line.strip()
         if line.startswith("{'seed'"):
             r = ast.literal_eval(line)
             rows[r["seed"]] = {"seed": r["seed"], "property": r["property"], "initial": r["caught_by"] if r["first_clause"] != "MACHINERY" else None,
-                               "initial_clause": r["first_clause"] if r["first_clause"] != "MACHINERY" else "", "tried": [list(t) for t in r["tried"]], "retests": []}
+                               "initial_clause": r["first_clause"] if r["first_clause"] != "MACHINERY" else "", "tried": [list(t) for t in r["tried"]], "retests": [],
+                               "round": 3 if f.endswith("b4.log") else 2}
 for f in sorted(glob.glob("/root/logs/seed_*.log"), key=os.path.getmtime):
     m = re.match(r"seed_(C\d\d-\d)\.(C\d\d)\.log", os.path.basename(f))
     if not m or m.group(1) not in rows:
@@ -37,12 +38,22 @@ with open(os.path.join(V, "seeded", "MATRIX.md"), "w") as fh:
              "(only re-run for seeds that were missed or caught by a neighbouring check only).\n\n"
              "| seed | property | first run: caught by | clause | after strengthening: caught by | clause | note |\n|---|---|---|---|---|---|---|\n")
     n1 = n2 = 0
-    for r in sorted(rows.values(), key=lambda r: r["seed"]):
+    r2 = [r for r in rows.values() if r["round"] == 2]
+    for r in sorted(r2, key=lambda r: r["seed"]):
         n1 += bool(r["initial"]); n2 += bool(r["final"])
         fh.write(f"| {r['seed']} | {r['property']} | {r['initial'] or '**not reported**'} | {r['initial_clause']} | {r['final'] or '**not reported**'} | {r['final_clause']} | {notes.get(r['seed'], '')} |\n")
-    fh.write(f"\n{n1} of {len(rows)} reported in the first run, {n2} of {len(rows)} after strengthening.\n\n")
+    fh.write(f"\n{n1} of {len(r2)} reported in the first run, {n2} of {len(r2)} after strengthening.\n\n")
+    r3 = [r for r in rows.values() if r["round"] == 3]
+    if r3:
+        fh.write("## Round 3 (seeds *-7, *-8: a second batch from fresh sub-agents for eight properties, run against the strengthened checks)\n\n"
+                 "| seed | property | first run: caught by | clause | after strengthening: caught by | clause | note |\n|---|---|---|---|---|---|---|\n")
+        m1 = m2 = 0
+        for r in sorted(r3, key=lambda r: r["seed"]):
+            m1 += bool(r["initial"]); m2 += bool(r["final"])
+            fh.write(f"| {r['seed']} | {r['property']} | {r['initial'] or '**not reported**'} | {r['initial_clause']} | {r['final'] or '**not reported**'} | {r['final_clause']} | {notes.get(r['seed'], '')} |\n")
+        fh.write(f"\n{m1} of {len(r3)} reported in the first run, {m2} of {len(r3)} after strengthening.\n\n")
     fh.write("## Round 1 (seeds *-1 .. *-3, previous session; matrix as recorded then)\n\n| seed | property | caught by | first clause |\n|---|---|---|---|\n")
     for r in old:
         fh.write(f"| {r['seed']} | {r['property']} | {r['caught_by'] or '**not reported**'} | {r['first_clause']} |\n")
     fh.write(f"\n{sum(1 for r in old if r['caught_by'])} of {len(old)} reported.\n")
-print(n1, n2, len(rows))
+print(n1, n2, len(r2), len(r3))
